@@ -77,7 +77,16 @@ class C12(core.Check):
             w.setdefault('syms', sorted({x for x, _ in w['routes']}))
             w.setdefault('balance', 100_000)
             regress.append(w)
-        for sess in regress + self.sessions(self.budget(150, 1200, boost), rng):
+        gen = self.sessions(self.budget(150, 1200, boost), rng)
+        # every third generated session with an on_open script measures its exits from the price the position is marked
+        # at inside the fill hook instead of the entry price ("every strategy": one that reads a mark-to-market
+        # quantity in a fill hook).  Single-fill entries only, where the two bases agree in the normal simulator.
+        for i, s_ in enumerate(gen):
+            for sc in s_['scripts'].values():
+                oo = sc.get('on_open')
+                if oo and i % 3 == 0 and all(len((sc.get(k) or {}).get('rows', [])) <= 1 for k in ('long', 'short')):
+                    oo['base'] = 'price'
+        for sess in regress + gen:
             cands = engcorr.candles_of(sess)
             s_step = dict(sess, fast=False)
             s_fast = dict(sess, fast=True)
